@@ -221,6 +221,14 @@ def run(spec, ctx):
                 d.add(dirs.Entry(nm, None, dta, junk=True))
                 ctx.count("cli.junk_neighbours")
                 ctx.see("cli.junk_kind", "/".join(str(x) for x in t[:2]))
+        if i % 2 == 0:
+            # a log with I/O-drawer sections whose decoders format text from the payload (trace strings with arguments that
+            # do not fit, %c arguments that are quotes / separators / surrogates): whatever they make of it belongs INTO the
+            # document, nothing of it next to it
+            from vf import iocli
+            iop, _meta = iocli.io_pel(rng, u)
+            d.add(dirs.Entry("%s_io%d" % (rng.choice(["0", "zz"]), i), iop, iop.encode(), junk=True))
+            ctx.count("cli.io_drawer_neighbours")
         outdir = os.path.join(root, "o%d" % i)
         os.makedirs(outdir, exist_ok=True)
         excl = os.path.join(root, "excl.txt")
